@@ -287,6 +287,14 @@ fn is_param_char(ch: char) -> bool {
         || ch == '_';
 }
 
+#[cfg(ashyanspada_expression_engine_rs_verif)]
+pub(crate) fn verif_char_bits(ch: char) -> u8 {
+    (is_whitespace_char(ch) as u8)
+        | ((is_delim_char(ch) as u8) << 1)
+        | ((is_param_char(ch) as u8) << 2)
+        | ((is_digit_char(ch) as u8) << 3)
+}
+
 #[cfg(test)]
 mod tests {
     use super::Tokenizer;
